@@ -2,10 +2,49 @@
 EXTENDS Replication
 TxDef2 == (10 :> 1) @@ (11 :> 2)
 TxDef3 == (10 :> 1) @@ (11 :> 2) @@ (12 :> 1)
+TxDefP == (10 :> 1) @@ (11 :> 1) @@ (12 :> 1)
+HoldDef == {<<2, 0>>}
+StreamDef == (10 :> "a") @@ (11 :> "b") @@ (12 :> "a")
 Bound == Len(h) <= 60
-AllQuiet == msgs = {} /\ \A t \in TxId : coord[t].phase # "replicating"
+AllQuiet == {m \in msgs : ~(m.kind = "rep" /\ <<m.to, m.k>> \in HoldBack)} = {} /\ \A t \in TxId : coord[t].phase # "replicating"
 Emit == (AllQuiet /\ \A t \in TxId : coord[t].phase # "none") =>
-           PrintT(<<"REPLAY", ToJson([steps |-> h, rf |-> RF,
+           PrintT(<<"REPLAY", ToJson([steps |-> h, rf |-> RF, streams |-> [t \in TxId |-> TxStream[t]],
+                                      logs |-> [n \in Node |-> log[n]], cnts |-> [n \in Node |-> cnt[n]],
+                                      acked |-> acked])>>)
+----------------------------------------------------------------------------
+(* Coordinator slice: the behaviours in which the REAL coordinator code can be run in the harness (one ClusterActor per   *)
+(* process = one real replica).  Node 1 leads first: it coordinates the old transactions, whose messages are delivered, *)
+(* lost or answered in any order; then it dies.  Nodes 2 and 3 learn it (views {2, 3}), node 3 restarts (its replicator *)
+(* starts from its log), and node 2 - the next leader - coordinates NewTx with node 3 as the only reachable replica.      *)
+NewTx == 12
+OldTx == TxId \ {NewTx}
+NoneInFlight == msgs = {}
+SliceNext ==
+    \/ up[1] /\ coord[NewTx].phase = "none" /\ \E t \in OldTx : ClientWrite(t, 1)
+    \/ up[1] /\ \E m \in msgs : RecvReplicate(m, FALSE) \/ RecvReply(m) \/ RecvConfirm(m, FALSE) \/ Lose(m)
+    \/ up[1] /\ NoneInFlight /\ \E t \in OldTx : GiveUp(t)
+    \/ up[1] /\ NoneInFlight /\ (\A t \in OldTx : coord[t].phase # "replicating") /\ Crash(1)
+    \/ ~up[1] /\ view[2] = Node /\ ViewChange(2, {2, 3})
+    \/ ~up[1] /\ view[2] = {2, 3} /\ view[3] = Node /\ ViewChange(3, {2, 3})
+    \/ ~up[1] /\ view[3] = {2, 3} /\ ncrash = 1 /\ Crash(3)
+    \/ ~up[1] /\ ~up[3] /\ Restart(3)
+    \/ ~up[1] /\ ncrash = 2 /\ up[3] /\ coord[NewTx].phase = "none" /\ ClientWrite(NewTx, 2)
+    \/ coord[NewTx].phase # "none" /\ \E m \in msgs : RecvReplicate(m, FALSE) \/ RecvReply(m) \/ RecvConfirm(m, FALSE)
+    \/ coord[NewTx].phase = "replicating" /\ NoneInFlight /\ GiveUp(NewTx)
+SliceSpec == Init /\ [][SliceNext]_vars
+EmitSlice == (coord[NewTx].phase \in {"acked", "failed"} /\ NoneInFlight) =>
+           PrintT(<<"REPLAY", ToJson([steps |-> h, rf |-> RF, streams |-> [t \in TxId |-> TxStream[t]], real_coordinator |-> NewTx,
+                                      logs |-> [n \in Node |-> log[n]], cnts |-> [n \in Node |-> cnt[n]],
+                                      acked |-> acked])>>)
+
+\* quiescent behaviours that contain a catch-up attempt
+EmitCU == (AllQuiet /\ cu # "none" /\ \A t \in TxId : coord[t].phase # "none") =>
+           PrintT(<<"REPLAY", ToJson([steps |-> h, rf |-> RF, streams |-> [t \in TxId |-> TxStream[t]],
+                                      logs |-> [n \in Node |-> log[n]], cnts |-> [n \in Node |-> cnt[n]],
+                                      acked |-> acked])>>)
+\* a behaviour that ends in two transactions confirmed at one sequence, for replay (used with the PinSeq = FALSE deviation)
+EmitViolation == (~OneConfirmedPerSeq) =>
+           PrintT(<<"REPLAY", ToJson([steps |-> h, rf |-> RF, streams |-> [t \in TxId |-> TxStream[t]],
                                       logs |-> [n \in Node |-> log[n]], cnts |-> [n \in Node |-> cnt[n]],
                                       acked |-> acked])>>)
 =============================================================================
